@@ -737,10 +737,12 @@ def explain_static_break(info_now):
     except OSError:
         return []
     unknown = []
+    def cl(xs):
+        return '[' + '; '.join('"' + x.replace('"', '""') + '"' for x in xs) + ']'
     for s in info_now.get('sites', []):
-        pat = f'W "{s["file"]}" "{s["func"]}" "{s["kind"]}" "{s["mode"]}"'
+        pat = f'W "{s["file"]}" "{s["func"]}" "{s["kind"]}" "{s["mode"]}"\n    {cl(s["guards"])}\n    {cl(s["target"])}'
         if pat not in src:
-            unknown.append({k: s[k] for k in ('file', 'func', 'kind', 'mode', 'line', 'guards')})
+            unknown.append({k: s[k] for k in ('file', 'func', 'kind', 'mode', 'line', 'guards', 'target')})
     return unknown
 
 
@@ -824,7 +826,8 @@ def main(tier):
 
     def rank(x):
         cls = next((i for i, w in enumerate(prio) if w in x), len(prio))
-        return (0 if cls <= 2 else cls, -len(viol[x]), x)     # loss of user data first, the most frequent facet of it
+        first = min(si for _, si, _ in viol[x])               # prefer what already shows in the first command of a sequence
+        return (first, 0 if cls <= 2 else cls, -len(viol[x]), x)   # then loss of user data, its most frequent facet
     for label, sigs in sorted(by_label.items()):
         sigs.sort(key=rank)          # lead with the loss of user data, then stray writes
         s = sigs[0]
